@@ -171,7 +171,7 @@ impl Property for C05 {
         "C05"
     }
     fn rule(&self) -> &'static str {
-        "case = vector kind (5 shared + 3 local) x 1-4 label names x 0-2 constant labels x 2-12 requests (slice or map form, \
+        "case = vector kind (5 shared + 3 local) x 1-4 label names x 0-2 constant labels x 2-12 requests (slice or map form; &str values are views into larger buffers whose start address varies mod 8 from request to request, \
          values concatenated from an adversarial fragment pool; later requests are re-splits / permutations / repeats of earlier \
          tuples; 6% of requests use a 24-83 byte value or a variant of it with a region removed / repeated / one byte changed) + error requests; every successful request is followed by a unique 2^i update; 2% of cases start from a \
          vector that already holds 200-2100 other children. Non-trivial: two different tuples \
@@ -460,23 +460,31 @@ impl C05 {
                     shifted = true;
                 }
             }
+            // the &str forms pass views into larger buffers, at a start address that differs (mod 8) from request to request - the way
+            // label values borrowed from a request line or a path arrive; the owned form passes freshly allocated Strings
+            let padded: Vec<(usize, String)> = tuple
+                .iter()
+                .enumerate()
+                .map(|(j, v)| {
+                    let pad = (i * 3 + j * 5 + 1) % 8;
+                    (pad, format!("{}{}", &"~~~~~~~~"[..pad], v))
+                })
+                .collect();
+            let views: Vec<&str> = padded.iter().map(|(pad, b)| &b[*pad..]).collect();
             let existed = model.contains_key(&tuple);
             let expected_before = model.get(&tuple).map(|c| model_value(&c.updates)).unwrap_or(0.0);
             let expected_count = model.get(&tuple).map(|c| c.updates.len() as u64).unwrap_or(0);
             match &mut local {
                 AnyLocal::None => {
                     let child = match form {
-                        0 => {
-                            let t: Vec<&str> = tuple.iter().map(|s| s.as_str()).collect();
-                            vec.get_slice(&t)
-                        }
+                        0 => vec.get_slice(&views),
                         2 => vec.get_slice_owned(&tuple),
                         _ => {
                             let seed = src.byte() as u64;
                             let mut m: HashMap<&str, &str, SeededState> = HashMap::with_hasher(SeededState(seed));
                             let order = src.perm(nlab);
                             for &k in &order {
-                                m.insert(names[k], tuple[k].as_str());
+                                m.insert(names[k], views[k]);
                             }
                             vec.get_map(&m)
                         }
@@ -495,22 +503,19 @@ impl C05 {
                     child.update(bit);
                 }
                 AnyLocal::C(l) => {
-                    let t: Vec<&str> = tuple.iter().map(|s| s.as_str()).collect();
-                    l.with_label_values(&t).inc_by((1u64 << bit) as f64);
+                    l.with_label_values(&views).inc_by((1u64 << bit) as f64);
                     if src.chance(64) {
                         l.flush();
                     }
                 }
                 AnyLocal::IC(l) => {
-                    let t: Vec<&str> = tuple.iter().map(|s| s.as_str()).collect();
-                    l.with_label_values(&t).inc_by(1u64 << bit);
+                    l.with_label_values(&views).inc_by(1u64 << bit);
                     if src.chance(64) {
                         l.flush();
                     }
                 }
                 AnyLocal::H(l) => {
-                    let t: Vec<&str> = tuple.iter().map(|s| s.as_str()).collect();
-                    l.with_label_values(&t).observe((1u64 << bit) as f64);
+                    l.with_label_values(&views).observe((1u64 << bit) as f64);
                     if src.chance(64) {
                         l.flush();
                     }
